@@ -244,6 +244,18 @@ PROPS = {
              "Does not decide that running the scheme gives the same results (parser and pysdmx needed).",
         note="pysdmx's generate_vtl_script (scheme -> script) is trusted. Known findings: ViralPropagationDef statements are dropped; "
              "3.0 written as 3."),
+    "C23": dict(
+        claimed=True, design="§3 C23",
+        technique="lexical/brace-matched analysis of bindings.cpp (ParserState members vs resets before parser->start(), listener installation); statement-CFG must-pass-through / must-precede rules on the function that calls parse(); call-graph parse-path set checked for memoisation decorators and for process-global containers without per-parse reset (globals inventory); acquire/release pairing of the parser lock on normal and exceptional exits (incl. generator context managers); raise-site inventory with grammar-exhaustiveness of ctx_id dispatch chains (ANTLR .g4 reader)",
+        text="Decides the structural clauses of the parser property: every piece of the C++ parser's global state is reset per parse and "
+             "errors of lexer and parser are collected; the Python side reads this parse's error after parse() and raises "
+             "VTLSyntaxError with the parser's own position before the tree is used, on every path; no function on the parse path "
+             "is memoised and no process-global container filled while parsing survives into the next parse; the parser lock "
+             "cannot stay held after a failing parse; the parse path raises VTL errors only, except behind dispatch chains that "
+             "are exhaustive over the grammar. Found and repaired: ruleset signatures leaking from one parse into the next.",
+        note="Crashes/hangs inside the ANTLR C++ runtime (deep nesting, malformed UTF-8) and whether reported positions lie inside "
+             "the input are not decided; bindings.cpp is analysed as text. 32 bare `raise NotImplementedError` sites behind tests on "
+             "optional parts are counted, not decided. Eight known findings (built-in exceptions for grammar-valid constructs)."),
 }
 
 NA_REASONS = {
